@@ -11,6 +11,7 @@ import Purr.Model.Builder
 import Purr.Model.Trace
 import Purr.Model.Pool
 import Purr.Model.Walk
+import Purr.Model.WalkRec
 import Purr.Model.Valence
 open Purr
 
@@ -173,7 +174,8 @@ def doWalk (g : Graph) : String :=
   let r := walk g
   let w := match write? r.1 with | some t => hexStr t | none => "panic"
   let p := match firstViolation none 0 r.1 with | none => "ok" | some i => s!"viol:{i}"
-  s!"{walkVerdictS r.2} # EV {joinSp (r.1.map eventS)} # W {w} # P {p}"
+  let evr := match walkRec g with | some es => joinSp (es.map eventS) | none => "none"
+  s!"{walkVerdictS r.2} # EV {joinSp (r.1.map eventS)} # W {w} # P {p} # EVR {evr}"
 
 def doPool (ps : List (Nat × Nat)) : String :=
   let rec go (p : Pool) (i : Nat) (acc : List String) : List (Nat × Nat) → String
